@@ -161,6 +161,9 @@ def run(R):
     from ..tlvtables import varnum_tables, compare_varnum, stream_read_profile
     R.ob('C06.TBL.1', 'read_tl_num_from_stream and parse_tl_num decode the same VAR-NUMBER table')
     try:
+        if any(getattr(x, '_table_miss', False) for x in ast.walk(rx.f.node)):
+            # an indexed lookup table: its "no such key" arm is not a row of the VAR-NUMBER table (the key is one octet); decided by execution below
+            raise AnalysisError('table-driven')
         tabs = varnum_tables(P, ('read_tl_num_from_stream', 'parse_tl_num'))
         for (what, a, b, okay, detail) in compare_varnum(tabs, only=('read_tl_num_from_stream', 'parse_tl_num')):
             inst = f'{a} vs {b} :: {what}'
